@@ -151,6 +151,17 @@ def corruptions(tier):
         "invalid-utf8": b"module zq\n  integer :: x \xff\xfe\xfa\n  character :: c = '\xc3\x28'\nend module zq\n",
         "nul-bytes": b"module zq\x00\x00\n integer :: x\nend module zq\n",
         "stray-end": "end\n",
+        # unit statements that lack their name / their parenthesised part
+        "module-no-name": "module\n  integer :: x\nend module\n",
+        "module-no-name-blank": "module  \n integer :: x\nend\n",
+        "program-no-name": "program\n  integer :: x\nend program\n",
+        "submodule-no-parent": "submodule\nend submodule\n",
+        "subroutine-no-name": "subroutine\nend subroutine\n",
+        "function-no-name": "function\nend function\n",
+        "type-no-name": "module zq\n  type\n  end type\nend module zq\n",
+        "interface-operator-bare": "module zq\n  interface operator\n  end interface\nend module zq\n",
+        "module-procedure-alone": "module procedure\nend\n",
+        "blockdata-bare": "block data\nend block data\n",
         "end-program-only": "end program nothing\n",
         "two-programs": "program p1\nend program p1\nprogram p2\nend program p2\n",
         "function-in-spec": "module zq\n  integer function f()\n  end function f\nend module zq\n",
